@@ -7,7 +7,7 @@ import os
 import sys
 
 from vc import trees as T
-from depccg.printer import conll, xml as xml_printer, jigg_xml, auto
+from depccg.printer import conll, xml as xml_printer, jigg_xml, auto, my_json
 from depccg.tools import reader
 from depccg.tools.ja import reader as ja_reader
 from depccg.printer import ja as ja_printer
@@ -174,6 +174,21 @@ for n in range(1, MAXW + 1):
                     p += nnodes(vv)
             except Exception as e:      # noqa
                 note('depccg/printer/jigg_xml.py::_ConvertToJiggXML.process', v, 'raises %s: %s' % (type(e).__name__, e), None)
+        # json: record structure
+        def enc_json(vv, tt, full):
+            cat = my_json._json_of_category(tt.cat) if full else str(tt.cat)
+            if vv[0] == 'L':
+                return dict(dict(tt.token), cat=cat)
+            kids = [enc_json(vv[1], tt.children[0], full)] + ([enc_json(vv[2], tt.children[1], full)] if vv[0] == 'B' else [])
+            return dict(type=tt.op_string, cat=cat, children=kids)
+        for full in (False,):
+            try:
+                got = my_json.json_of(t, full=full)
+            except Exception as e:      # noqa
+                got = 'raises %s: %s' % (type(e).__name__, e)
+            want = enc_json(v, t, full)
+            if got != want:
+                note('depccg/printer/my_json.py::json_of', v, got, want)
         # AUTO: the printed text is the pieces of the spec; reading it yields a tree iso to the one printed
         try:
             got = auto.auto_of(t).split(' ')
